@@ -374,6 +374,43 @@ var Scenarios = []Scenario{
 				return fmt.Sprint(res), bad, nil
 			}
 	}},
+	{Name: "S9-first-load-of-a-page-sharing-its-libraries-with-another", MinOutcomes: 1, New: func(iter int) ([]func(), func() (string, string, []Event)) {
+		// a page without blocks of its own and two block sources; another page uses the first source alone:
+		// loading the one must not change what the other renders, in either order and at any moment
+		in := jet.NewInMemLoader()
+		in.Set("/lib1.jet", `{{block x()}}L1.x{{end}}{{block y()}}L1.y{{end}}`)
+		in.Set("/lib2.jet", `{{block x()}}L2.x{{end}}`)
+		in.Set("/page.jet", `{{import "/lib1.jet"}}{{import "/lib2.jet"}}[{{yield x()}}|{{yield y()}}]`)
+		in.Set("/other.jet", `{{import "/lib1.jet"}}({{yield x()}}|{{yield y()}}{{.}})`)
+		set := jet.NewSet(yLoader{in})
+		res := make([]string, 2)
+		body := func(i int, name, data string) func() {
+			return func() {
+				t, err := set.GetTemplate(name)
+				if err != nil {
+					res[i] = errStr(err)
+					return
+				}
+				o, e := exec(t, nil, data)
+				res[i] = o + errStr(e)
+			}
+		}
+		return []func(){body(0, "/page.jet", "p"), body(1, "/other.jet", "o")}, func() (string, string, []Event) {
+			bad := ""
+			if res[0] != "[L2.x|L1.y]" || res[1] != "(L1.x|L1.yo)" {
+				bad = fmt.Sprintf("outputs %q, serial outputs are [[L2.x|L1.y] (L1.x|L1.yo)]", res)
+			}
+			for _, again := range [][2]string{{"/other.jet", "(L1.x|L1.yz)"}, {"/page.jet", "[L2.x|L1.y]"}, {"/lib1.jet", "L1.xL1.y"}} {
+				t, err := set.GetTemplate(again[0])
+				if err != nil {
+					bad = "afterwards GetTemplate fails: " + err.Error()
+				} else if out, _ := exec(t, nil, "z"); out != again[1] {
+					bad = fmt.Sprintf("afterwards %s renders %q, want %q", again[0], out, again[1])
+				}
+			}
+			return fmt.Sprint(res), bad, nil
+		}
+	}},
 }
 
 // Linearizable checks a history of register operations by brute force over all orders that respect
